@@ -110,6 +110,15 @@ func c07Cases(thorough bool) []c07Case {
 		"a = [1]; i=0; while i < 600 { a.push(i); i = i + 1 }; a.len()", "a = [0]*500; i = 0; while 1 { a = [a, a, a]; i = i + 1 }"} {
 		add("grow-container", p, false, "", false)
 	}
+	// values that contain themselves or share substructure: every walk over a value (attribute lookup along __proto__,
+	// comparison, printing) must be bounded by the number of OBJECTS, not by the number of paths through them
+	for _, p := range []string{"a = {}; a.__proto__ = a; a.x", "a = {}; b = {}; a.__proto__ = b; b.__proto__ = a; a.x", "a = {'k':1}; a.__proto__ = a; a.len()", "a = {}; a.__proto__ = a; while 1 { a.x }",
+		"a=[1]; a.push(a); b=[1]; b.push(b); a==b", "a={}; a.k=a; b={}; b.k=b; a==b", "a=[1]; a.push(a); b=[1]; b.push(b); a!=b", "a=[1]; a.push(a); b=[1]; b.push(b); [a]==[b]",
+		"a=[1]; b=[1]; i=0; while i<64 { a=[a,a]; b=[b,b]; i=i+1 }; a==b", "a={'k':1}; b={'k':1}; i=0; while i<64 { a={'x':a,'y':a}; b={'x':b,'y':b}; i=i+1 }; a==b",
+		"a=[1]; i=0; while i<64 { a=[a,a]; i=i+1 }; repr(a); 1", "a=[1]; i=0; while i<64 { a=[a,a]; i=i+1 }; `{a}`; 1", "a=[1]; i=0; while i<64 { a=[a,a]; i=i+1 }; a.sum(); 1",
+		"p = {}; i = 0; while i < 1500 { q = {}; q.__proto__ = p; p = q; i = i + 1 }; while 1 { p.zz }", "a=[1]; a.push(a); a+a; a*3; a.shuffle(); a.rand(); toStr(a); 1"} {
+		add("cyclic", p, false, "", false)
+	}
 	// container lengths: repetition, concatenation and ranges build at most 512 elements in one operation, whatever the operands
 	for _, p := range []string{"([1,2]*256).len()", "([1,2]*257).len()", "([1,2]*300).len()", "([1,2,3,4]*512).len()", "(171*[1,2,3]).len()", "(300*[1,2]).len()", "([0]*512).len()", "([0]*513).len()",
 		"([1,2,3,4,5,6,7]*74).len()", "a=[0]*300; (a+a).len()", "a=[0]*256; b=a+a; (b+[1]).len()", "a=[0]*512; (a+[]).len()", "a=[0]*511; (a+[1,2]).len()", "[1..512].len()", "[1..513].len()", "[0..512].len()",
